@@ -389,6 +389,11 @@ impl Walrus {
                 };
                 let mut in_block_off: u64 = 0;
                 loop {
+                    // No room left for another entry header: the block is full. Reading
+                    // on would run past the block (and, in the last block, past the file).
+                    if in_block_off + PREFIX_META_SIZE as u64 > block_limit {
+                        break;
+                    }
                     match block_stub.read(in_block_off) {
                         Ok((_entry, consumed)) => {
                             used += consumed as u64;
